@@ -490,8 +490,12 @@ Verdict run_sched_case(const Case &c, SchedProp which)
       }
       if (rep.empty())
         return bad("ThreadSanitizer stopped the run (exit 97) but left no report file");
+      // a report without any frame in wencry's sources would be a race inside the harness: never a verdict
+      bool repo_frame = !symbolized || rep.find("/kernel/") != std::string::npos;
       bool hit;
-      if (which == SP_C14)
+      if (!repo_frame)
+        hit = false;
+      else if (which == SP_C14)
         hit = is_race && heap && main_party && worker_party; // I/O thread and a worker on the same buffer / control block without a hand-over
       else if (which == SP_C03)
         hit = is_race && worker_party && (heap || in_transform || !symbolized); // chunk data or the cipher transformation itself depends on the schedule
@@ -646,6 +650,25 @@ Case gen_sched_case(SchedProp which)
   c.seti("hmode", g::range(0, 3));
   c.seti("T", T);
   c.seti("chunk", chunk);
+  // the hash buffer's refill size (64-byte units) for the operations that hash the file (enc / dec / ver); one
+  // case in three of those has a hashed range (20T + ciphertext) that is an exact multiple of the refill size
+  if (op == "enc" || op == "dec" || op == "ver")
+  {
+    long rf = g::oneof<long>({1, 2, 3, 4, 8});
+    c.seti("refill", rf);
+    if (g::coin(33))
+    {
+      // 20T + 16*(blocks) == m * 64 * rf needs 20T = 0 mod 16, i.e. T a multiple of 4
+      T = (int)g::oneof<long>({4, 4, 4, 8});
+      long m = g::range(1, 5);
+      long bytes_ct = m * 64 * rf - 20 * T;
+      while (bytes_ct < 16)
+        bytes_ct += 64 * rf;
+      len = (uint64_t)(bytes_ct - 16 + g::range(0, 16)); // padded length == bytes_ct
+      c.seti("T", T);
+      c.seti("plen", (long long)len);
+    }
+  }
   c.set("sched", gen_sched(T, (size_t)(len / 16 + 1)).text());
   if (which == SP_C04 && wapi::has_scheduler() && (op == "enc" || op == "dec" || op == "ver") && g::coin(10))
   {
